@@ -981,8 +981,10 @@ class Parser:
 
     def _parse_postfix_expression(self) -> Node:
         """Parse postfix expression (member access, calls, postfix ++/--)."""
-        expr = self._parse_new_expression()
+        return self._parse_postfix_suffixes(self._parse_new_expression())
 
+    def _parse_postfix_suffixes(self, expr: Node) -> Node:
+        """Apply member accesses, calls and postfix ++/-- that follow expr."""
         while True:
             if self._match(TokenType.DOT):
                 # Member access: a.b (keywords allowed as property names)
@@ -1079,8 +1081,10 @@ class Parser:
                 # If there are more parens to close and we're not at the last one,
                 # check if there are operators between this ) and the next
                 if i < paren_depth - 1:
-                    # Continue parsing any operators that might be between parens
-                    # like in ((-Infinity) | 0)
+                    # Continue parsing anything that might be between parens:
+                    # member accesses and calls as in ((a).b), ((f)(1)), then
+                    # operators as in ((-Infinity) | 0)
+                    expr = self._parse_postfix_suffixes(expr)
                     expr = self._continue_parsing_expression(expr)
 
             return expr
